@@ -110,6 +110,7 @@ def oracle_api(ctx: Ctx, case):
         ids, ok = row_ids(g, i)
         ctx.check(len(ids) == 1 and ok and min(ids) == seen[int(idx1[0][i])], "C09/gather/row-not-the-indexed-sample", row=i, ids=sorted(ids), index=int(idx1[0][i]))
     bt = buf.batches(B, key=k1, batch_axes=axes)
+    ctx.check(tuple(np.asarray(bt.rewards).shape) == (nb, B), "C09/batches/not-floor-N-over-B-minibatches-of-B", shape=list(np.asarray(bt.rewards).shape), expected=[nb, B])
     used = []
     for b in range(nb):
         one = jax.tree.map(lambda x: x[b], bt)
